@@ -207,3 +207,18 @@ Example all_sample_ok :
   exists body r, lower_module all_sample = Some body /\ run_visit "m" body = Ok r /\
     r_exports r = Some ["s:a"; "s:b"; "n:c"; "s:d"; "s:e"; "n:__all__"].
 Proof. eexists. eexists. split; [vm_compute; reflexivity|]. split; vm_compute; reflexivity. Qed.
+
+(*  1 if not TYPE_CHECKING:
+    2     import os
+    3 else:
+    4     import typing            (type-checking-only: the else branch of a negated test)
+    5 from pkg import __all__      (the other module's list becomes this module's exports)        *)
+Definition negated_sample : list rnode :=
+  [RNode "If" (PIf "not TYPE_CHECKING") [[RNode "Import" (PImport 2 2 [("os", "os")]) []];
+                                         [RNode "Import" (PImport 4 4 [("typing", "typing")]) []]];
+   RNode "ImportFrom" (PImportFrom 5 5 [IName "__all__" "pkg.__all__"]) []].
+Example negated_sample_ok :
+  exists body r, lower_module negated_sample = Some body /\ run_visit "m" body = Ok r /\
+    map (fun p => (fst p, iruntime (snd p))) (minfo (r_members r)) = [("os", true); ("typing", false); ("__all__", true)] /\
+    r_exports r = Some ["n:__all__"].
+Proof. eexists. eexists. split; [vm_compute; reflexivity|]. split; [vm_compute; reflexivity|]. split; vm_compute; reflexivity. Qed.
